@@ -119,7 +119,15 @@ def merge(results):
             out["mech_counts"][k] = out["mech_counts"].get(k, 0) + v
         out["inconclusive"].extend(r["inconclusive"])
         for k, v in r["extra"].items():
-            if k.startswith("max_"):
+            if k == "subject_coverage":
+                c = out["extra"].setdefault(
+                    k, {"hit": {}, "total": {}, "never": None})
+                for f, lines in v.get("hit", {}).items():
+                    c["hit"].setdefault(f, set()).update(lines)
+                c["total"].update(v.get("total", {}))
+                nv_ = set(v.get("never", []))
+                c["never"] = nv_ if c["never"] is None else c["never"] & nv_
+            elif k.startswith("max_"):
                 out["extra"][k] = max(out["extra"].get(k, 0), v)
             elif isinstance(v, (int, float)) and not isinstance(v, bool):
                 out["extra"][k] = out["extra"].get(k, 0) + v
@@ -135,6 +143,13 @@ def merge(results):
                         d[kk] = vv
             else:
                 out["extra"][k] = v
+    c = out["extra"].get("subject_coverage")
+    if c:
+        out["extra"]["subject_coverage"] = {
+            "lines_executed/executable": {
+                f: [len(c["hit"].get(f, ())), n]
+                for f, n in sorted(c["total"].items())},
+            "functions_never_entered": sorted(c["never"] or [])[:80]}
     out["distinct_nontrivial"] = sum(len(s) for s in out["distinct"].values())
     out["distinct_groups"] = len(out["distinct"])
     del out["distinct"]
